@@ -276,7 +276,7 @@ func runC12(res *Result, tier string, rnd *Rand, replay string) {
 	logger.SetLevel(logrus.PanicLevel)
 	n := 80
 	if tier == "thorough" {
-		n = 600
+		n = 240
 	}
 	for i := 0; i < n; i++ {
 		r := rnd.Fork()
@@ -332,7 +332,7 @@ func runC12(res *Result, tier string, rnd *Rand, replay string) {
 					}
 				}()
 			}
-			if mode == "yaml" && (tier == "thorough" || i%8 == 0) {
+			if mode == "yaml" && ((tier == "thorough" && i%3 == 0) || i%8 == 0) {
 				c12Reimport(res, in, a, out, "spec.yaml", logger)
 			}
 		}
